@@ -37,8 +37,10 @@ def _H():
 
 
 def _Rx(theta):
+    # a rotation about x followed by a phase on |1>: unitary and NOT symmetric (U != U^T), so that a transposed
+    # matrix access in the emulator is visible
     c, s = numpy.cos(theta / 2), numpy.sin(theta / 2)
-    return numpy.array([[c, -1j * s], [-1j * s, c]], dtype=complex)
+    return numpy.array([[c, -1j * s], [s, 1j * c]], dtype=complex)
 
 
 def _CX():
@@ -48,7 +50,7 @@ def _CX():
         for t in (0, 1):
             src = c | (t << 1)
             dst = c | ((t ^ c) << 1)
-            m[dst, src] = 1
+            m[dst, src] = 1j if (c and not t) else 1      # a phase on one branch: the matrix is not symmetric
     return m
 
 
